@@ -228,7 +228,7 @@ func Run(r *report.Run) int {
 			fmt.Sprintf("size=%d dmg=[%s] -> %v", v.c.Size, c25.DmgKey(v.c.Dmg), brief(v.detail["observed"])))
 	}
 	em.Flush(3)
-	return r.Finish(rule, assumptions, r.Pick(25, 60))
+	return r.Finish(rule, assumptions, r.Pick(70, 150))
 }
 
 func brief(v any) string {
